@@ -49,6 +49,8 @@ def gen_watcher(rng, name, profile):
         w["hooks"] = hooks
     if rng.random() < 0.06:
         w["max_age"] = 1
+    if rng.random() < profile.get("on_demand", 0.12):
+        w["on_demand"] = True
     return w
 
 
@@ -94,6 +96,7 @@ class View(object):
         self.next_pid = s.k.next_pid
         self.slot = arb._exclusive_running_command
         self.stopping = arb._stopping
+        self.any_on_demand = any(getattr(w, "on_demand", False) for w in arb.watchers)
 
 
 def some_name(rng, v, bogus=0.1):
@@ -278,7 +281,8 @@ def gen_op(rng, v, rid, profile):
     cum = 0.0
     for kind, weight in (("wake", w.get("wake", 0.36)), ("check", w.get("check", 0.12)), ("adv", w.get("adv", 0.05)),
                          ("die", w.get("die", 0.08)), ("xkill", w.get("xkill", 0.04)), ("fault", w.get("fault", 0.03)),
-                         ("raw", w.get("raw", 0.02)), ("sig", w.get("sig", 0.012))):
+                         ("raw", w.get("raw", 0.02)), ("sig", w.get("sig", 0.012)),
+                         ("sockev", w.get("sockev", 0.03 if v.any_on_demand else 0.0))):
         cum += weight
         if r < cum:
             break
@@ -306,6 +310,8 @@ def gen_op(rng, v, rid, profile):
         return ["raw", list(rng.choice(RAW_FRAMES)), rng.randint(0, 2)]
     if kind == "sig":
         return ["sig", rng.choice(["quit", "reload", "reload"])]
+    if kind == "sockev":
+        return ["sockev", 1 if rng.random() < 0.7 else 0]
     return ["req", gen_request(rng, v, rid, profile), rng.randint(0, 2)]
 
 
